@@ -2,6 +2,7 @@ package e1
 
 import (
 	"fmt"
+	"strings"
 
 	"github.com/scigolib/hdf5/verifsim/model"
 	"github.com/scigolib/hdf5/verifsim/rng"
@@ -126,6 +127,16 @@ func genCompoundOp(r *rng.R, path string) trace.Op {
 		off += uint32(b.Size)
 	}
 	op.Dims = genDims(r, 2, 200)
+	if r.Chance(0.3) {
+		op.Mode = "v1" // version 1 compound encoding (member names padded to 8 bytes)
+	}
+	if r.Chance(0.5) {
+		// member name lengths around the 8-byte padding boundary of the encodings
+		for i := range op.Fields {
+			l := rng.Pick(r, []int{7, 8, 9, 15, 16, 24})
+			op.Fields[i].Name += strings.Repeat("_", l-len(op.Fields[i].Name))
+		}
+	}
 	return op
 }
 
